@@ -395,18 +395,24 @@ def readLoop (tb : Int) (c0 : Cur) : Tok × Cur :=
     let a := c.argValue tb; (tok .loopBegin 0 [a.1], a.2)
   else (tok .loopBegin 0 [.int 2], c)
 
-/-- the closing `'` of a chord: optional length, `,gate`, `,velocity` -/
-def readHarmonyEnd (c : Cur) : Tok × Cur :=
-  let ln : SV × Cur :=
-    if (isDigit (peek c.s) ∨ peek c.s = 94) ∧ c.s ≠ [] then let r := c.noteLength; (.str r.1, r.2) else (.none, c)
-  let c1 := ln.2.skipSpace
+/-- the optional length after the closing `'` of a chord -/
+def harmLen (c : Cur) : SV × Cur :=
+  if (isDigit (peek c.s) ∨ peek c.s = 94) ∧ c.s ≠ [] then let r := c.noteLength; (.str r.1, r.2) else (.none, c)
+
+/-- `,gate` and `,velocity` after the chord's length -/
+def harmArgs (lnv : SV) (c1 : Cur) : Tok × Cur :=
   match c1.s with
   | 44 :: r =>
     let q := getInt (-1) r
     (match q.2 with
-     | 44 :: r2 => let v := getInt (-1) r2; (tok .harmonyEnd 0 [ln.1, .int q.1, .int v.1], ⟨v.2, c1.line⟩)
-     | _ => (tok .harmonyEnd 0 [ln.1, .int q.1, .none], ⟨q.2, c1.line⟩))
-  | _ => (tok .harmonyEnd 0 [ln.1, .int (-1), .none], c1)
+     | 44 :: r2 => let v := getInt (-1) r2; (tok .harmonyEnd 0 [lnv, .int q.1, .int v.1], ⟨v.2, c1.line⟩)
+     | _ => (tok .harmonyEnd 0 [lnv, .int q.1, .none], ⟨q.2, c1.line⟩))
+  | _ => (tok .harmonyEnd 0 [lnv, .int (-1), .none], c1)
+
+/-- the closing `'` of a chord: optional length, `,gate`, `,velocity` -/
+def readHarmonyEnd (c : Cur) : Tok × Cur :=
+  let ln := harmLen c
+  harmArgs ln.1 ln.2.skipSpace
 
 def countChar (s : List Nat) (c : Nat) : Int := (s.filter (· = c)).length
 
